@@ -5,6 +5,19 @@ COMMON_NOTE = ("Trusted base: Lean 4.33 kernel; axioms ⊆ {propext, Classical.c
                "generated tables (harness/gen_tables.py). ")
 
 CLAIMED = {
+    "C05": {
+        "text": "Theorems (Lean, unbounded, over arbitrary strings): norm_agrees / norm_agrees_abs — for every table-location spelling the "
+                "listed form, the Iceberg-style form and the absolute form of a library file normalise to the same path; gc_safe — for every "
+                "listing, grace decision and set of manifest/marker spellings no listed file denoted by a reachable or protected entry is "
+                "deleted; gc_live — an unkept old listed file is deleted; gc_deletes_only_old_unkept. The normaliser as found is refuted in "
+                "Lean (norm_agrees_refuted) and was replayed on the real collector, then repaired. Correspondence: _normalize_path and "
+                "_gc_prefix vs the model; oracle: real histories at 12 location spellings (incl. d, data, m, metadata, symlink, S3 prefixes) "
+                "with aged files and open transactions, deleted set vs independently computed reachability over ALL retained snapshots.",
+        "design_ref": "§6 C05",
+        "note": "The collector's reachability walk and marker loading are exercised end to end here and modelled step-wise under C07/C06; "
+                "the for-all-histories store invariant (history_wf) is not proved in Lean yet — covered by the history oracle.",
+        "technique": "Lean 4 theorems on the path normaliser and delete decision (List Char) + correspondence + history oracle",
+    },
     "C10": {
         "text": "Theorems (Lean, unbounded): parse_total — no pointer content (any code points, any length, invalid UTF-8) makes the hint parser "
                 "raise; recover_highest_newest — the scan returns an existing metadata file of the highest version and, among those, of the "
